@@ -87,7 +87,7 @@ sys.addaudithook(_audit)
 # ---------------------------------------------------------------------------------------------
 # names and contents
 
-NAME_CLASSES = ["plain", "space", "unicode", "xml", "mixed", "nfd"]
+NAME_CLASSES = ["plain", "space", "unicode", "xml", "mixed", "nfd", "prefix"]
 
 
 def concrete_name(abstract: str, cls: str, is_file: bool) -> str:
@@ -108,6 +108,9 @@ def concrete_name(abstract: str, cls: str, is_file: bool) -> str:
         return base + "&<x>'q\"" + ext
     if cls == "nfd":       # decomposed characters, as macOS writes them: not stable under Unicode normalisation
         return base + "_cafe\u0301 A\u030angstro\u0308m" + ext
+    if cls == "prefix":    # every name is a string prefix of the names that sort before it in the abstract alphabet:
+        # 'd' -> nnn...(23), 'a' -> nnn...(26), so a sibling's name starts with the name of a nested history's folder
+        return "n" * (27 - (ord(base[0]) - ord("a"))) + base[1:] + ext
     if cls == "mixed":
         k = sum(ord(c) for c in abstract) % 4
         return concrete_name(abstract, NAME_CLASSES[k], is_file)
